@@ -470,6 +470,50 @@ class Gen:
             return
         self.try_emit({'k': 'copy', 'ph': self.phase, 'src': r[0], 'dst': dst})
 
+    def op_defx(self):
+        """a text-source / program / files-source symbol that holds a PATH (evaluated when referenced)"""
+        draw = self.draw
+        typ = draw(st.sampled_from(['ts', 'ts', 'pg', 'fs']))
+        site = ref.X_SITE[typ]
+        want = {'ts': 'f', 'pg': 'f', 'fs': 'd'}[typ]
+        pred = (lambda k, e: k[1].endswith('x1')) if typ == 'pg' else None
+        old_force = self.force
+        cd_syms = [n for n in sorted(self.S.paths) if self.S.paths[n].kind == 'cd' and n not in self.tainted]
+        forced_opt = None
+        how = draw(st.sampled_from(['any', 'cd-sym', 'cd-opt']))
+        if how == 'cd-sym' and cd_syms:
+            self.force = draw(st.sampled_from(cd_syms))
+        r = None
+        try:
+            if how == 'cd-opt':
+                base = ref.locate(self.S.cwd)
+                ents = self.existing_under(base, want, pred)
+                ents = [e for e in ents if e[0] and not e[0].startswith('w')]
+                if ents:
+                    suffix, t = draw(st.sampled_from(ents))
+                    r = (self.mk_expr((1, 'cd', None, ref.PV('cd'), None), suffix, is_dir=(t == 'd')), None, t)
+            if r is None:
+                r = self.expr_existing(site, self.phase, want, pred)
+        finally:
+            self.force = old_force
+        if r is None:
+            return
+        self.n_x = getattr(self, 'n_x', 0) + 1
+        name = 'X%d' % self.n_x
+        if self.try_emit({'k': 'defx', 'ph': self.phase, 'name': name, 'type': typ, 'expr': r[0]}):
+            if draw(st.integers(0, 2)) == 0:
+                self.op_cd()
+            if draw(st.booleans()):
+                self.op_usex(name)
+
+    def op_usex(self, name=None):
+        draw = self.draw
+        if not self.S.xsyms:
+            return self.op_defx()
+        if name is None:
+            name = draw(st.sampled_from(sorted(self.S.xsyms)))
+        self.try_emit({'k': 'usex', 'ph': self.phase, 'name': name, 'type': self.S.xsyms[name][0]})
+
     def op_read(self):
         draw = self.draw
         sites = list(READ_SITES_ANY)
@@ -496,13 +540,13 @@ class Gen:
         """emit unless the model says the generated instruction is outside the domain (e.g. a name clash that
         the candidate selection did not foresee); the state is unchanged in that case"""
         import copy as _copy
-        saved = (_copy.deepcopy(self.S.tree), dict(self.S.paths), dict(self.S.strs), self.S.cwd)
+        saved = (_copy.deepcopy(self.S.tree), dict(self.S.paths), dict(self.S.strs), self.S.cwd, dict(self.S.xsyms))
         try:
             self.emit(op)
             return True
         except Broken:
             self.ops.pop()
-            self.S.tree, self.S.paths, self.S.strs, self.S.cwd = saved
+            self.S.tree, self.S.paths, self.S.strs, self.S.cwd, self.S.xsyms = saved
             return False
 
     def gen_act(self):
@@ -744,7 +788,7 @@ class Gen:
 
 
 WEIGHTED_KINDS = (['def'] * 7 + ['defstr'] * 2 + ['cd'] * 3 + ['cdseq'] * 2 + ['render'] * 3 + ['file'] * 2 + ['dir'] * 2 +
-                  ['copy'] * 3 + ['read'] * 6)
+                  ['copy'] * 3 + ['read'] * 6 + ['defx'] * 2 + ['usex'] * 2)
 
 
 @st.composite
